@@ -10,6 +10,10 @@ values a harness can observe at each of them.
 """
 
 
+from models.sm_model import SMModel
+from models.sa_model import SAModel
+
+
 class ModelFault(Exception):
     def __init__(self, site, visit):
         super().__init__(f"{site}#{visit}")
@@ -62,6 +66,24 @@ class RobotModel:
         self.comps = cfg["components"]
         self.outcome = ("returned",)
         self.sessions = []          # (mode, iterations)
+        # embedded state machines (integration runs): components that are StateMachines,
+        # autonomous modes that are AutonomousStateMachine / StatefulAutonomous
+        clock = lambda stall=0: self.now * 1e-6
+        self.sms = {}
+        for c in self.comps:
+            if c.get("machine"):
+                m = c["machine"]
+                durs = {st["name"]: st["duration"] for st in m["states"] if st["kind"] == "timed"}
+                self.sms[c["name"]] = SMModel(m, durs, clock, exact=bool(cfg["dyadic"]), asm=False)
+        self.mode_models = {}
+        for m in cfg["modes"]:
+            if m.get("kind") == "asm":
+                durs = {st["name"]: st["duration"] for st in m["machine"]["states"] if st["kind"] == "timed"}
+                self.mode_models[m["name"]] = ("asm", SMModel(m["machine"], durs, clock, exact=bool(cfg["dyadic"]), asm=True))
+            elif m.get("kind") == "sa":
+                self.mode_models[m["name"]] = ("sa", SAModel(dict(m["machine"], vars=[]), exact=bool(cfg["dyadic"])))
+        self.sm_calls = 0
+        self.sm_stops = 0
 
     # ------------------------------------------------------------ callbacks
     def snapshot(self):
@@ -94,10 +116,55 @@ class RobotModel:
                 self.done = True
             elif k == "raise":
                 do_raise = True
+            elif k == "engage":
+                if a[1] in self.sms:
+                    self.sms[a[1]].engage()
+            elif k in ("smnext", "smdone"):
+                sm = self._owner_machine(site)
+                if sm is not None:
+                    if k == "smnext" and a[1] in sm.states and sm.states[a[1]]["kind"] != "default":
+                        if isinstance(sm, SMModel):
+                            sm._enter(a[1])
+                        else:
+                            sm.cur, sm.fresh = a[1], True
+                    elif k == "smdone":
+                        if isinstance(sm, SMModel):
+                            sm._done()
+                            sm.take()
+                            self.note(site.split(".st.")[0] + ".done")
+                        else:
+                            sm.cur = None
         if do_raise:
             self.faults_fired += 1
             raise ModelFault(site, n)
         return n
+
+    def _owner_machine(self, site):
+        if ".st." not in site:
+            return None
+        owner = site.split(".st.")[0]
+        if owner in self.sms:
+            return self.sms[owner]
+        if owner.startswith("mode."):
+            mm = self.mode_models.get(owner[5:])
+            return mm[1] if mm else None
+        return None
+
+    def note(self, site, extra=None):
+        n = self.visits.get(site, 0) + 1
+        self.visits[site] = n
+        self.log.append([site, n, self.now, self.mode_nt, self.snapshot(), extra])
+
+    def _sm_step(self, prefix, sm, fn):
+        fn()
+        for ev in sm.take():
+            if ev[0] == "CALL":
+                self.sm_calls += 1
+                self.cb(f"{prefix}.st.{ev[1]}", [ev[2], ev[3], ev[4]])
+            elif ev[0] == "DONE":
+                self.sm_stops += 1
+                self.note(f"{prefix}.done")
+        self.note(f"{prefix}.post", [sm.executing, sm.cs])
 
     def guarded(self, site, extra=None):
         """A user callback invoked by the framework: with the FMS attached an
@@ -177,7 +244,10 @@ class RobotModel:
     def _all(self, hook):
         for c in self.comps:
             if hook in c["hooks"]:
-                self.guarded(f"{c['name']}.{hook}")
+                n = self.guarded(f"{c['name']}.{hook}")
+                if n is not None and hook == "on_disable" and c["name"] in self.sms:
+                    sm = self.sms[c["name"]]
+                    self._sm_step(c["name"], sm, sm.on_disable)
 
     def _feedbacks(self):
         owners = [("robot", self.cfg["robot_feedbacks"])] + [(c["name"], c["feedbacks"]) for c in self.comps]
@@ -195,7 +265,10 @@ class RobotModel:
 
     def _enabled_periodic(self):
         for c in self.comps:
-            self.guarded(f"{c['name']}.execute")
+            n = self.guarded(f"{c['name']}.execute")
+            if n is not None and c["name"] in self.sms:
+                sm = self.sms[c["name"]]
+                self._sm_step(c["name"], sm, lambda: sm.execute([]))
         self._periodics()
         self._reset()
 
@@ -246,21 +319,37 @@ class RobotModel:
         self.guarded("robot.autonomousInit")
         m = self.selected_mode()
         t0 = self.now
+        mm = self.mode_models.get(m) if m is not None else None
         if m is not None:
-            self.guarded(f"mode.{m}.on_enable")
+            n = self.guarded(f"mode.{m}.on_enable")
+            if n is not None and mm:
+                mm[1].on_enable()
         self.expiry = self.now + self.p
         while not self.done:
             if not (self.ds["enabled"] and self.ds["mode"] == "auto"):
                 break
             if m is not None:
-                self.guarded(f"mode.{m}.on_iteration", (self.now - t0) * 1e-6)
+                tm = (self.now - t0) * 1e-6
+                n = self.guarded(f"mode.{m}.on_iteration", tm)
+                if n is not None and mm:
+                    if mm[0] == "asm":
+                        self._sm_step(f"mode.{m}", mm[1], lambda: mm[1].on_iteration([]))
+                    else:
+                        sa = mm[1]
+                        sa.on_iteration(tm, None)
+                        for ev in sa.take():
+                            if ev[0] == "CALL":
+                                self.sm_calls += 1
+                                self.cb(f"mode.{m}.st.{ev[1]}", [ev[2], ev[3], ev[4]])
             if self.cfg["use_teleop_in_auto"]:
                 self.guarded("robot.teleopPeriodic")
             self._enabled_periodic()
             self.wait()
             it += 1
         if m is not None:
-            self.guarded(f"mode.{m}.on_disable")
+            n = self.guarded(f"mode.{m}.on_disable")
+            if n is not None and mm and mm[0] == "asm":
+                self._sm_step(f"mode.{m}", mm[1], mm[1].on_disable)
         self._all("on_disable")
         self.sessions.append(("auto", it))
 
